@@ -91,7 +91,7 @@ def oracle_T(toks):
     #     reader through the ReadStream& base: same bytes, same size prediction, same values
     # re: the same stream decoded into pre-filled destinations (stale content of equal / larger / smaller size)
     # and once more into the same objects: every destination equals the written value exactly
-    return "enc=%s calc=%d dec=%s end=%s cur=%d trunc=ok:%d fix=%s re=ok st=ok cp=ok" % (hx(enc), L, dec, ends, L, L, fix)
+    return "enc=%s calc=%d dec=%s end=%s cur=%d trunc=ok:%d fix=%s re=ok st=ok cp=ok mv=ok" % (hx(enc), L, dec, ends, L, L, fix)
 
 
 def oracle_R(toks):
@@ -185,10 +185,20 @@ def oracle_L(toks):
 def oracle_H(toks):
     """readers and a writer interleaved over one shared buffer: every read / view / end() is judged against the
     buffer's CURRENT contents (everything written so far), whenever the reader was constructed"""
-    buf, curs, outs = b"", [], []
+    buf, curs, outs, msgs = b"", [], [], []
     for tok in toks:
         f = tok.split(":")
-        if f[0] == "w":
+        if f[0] in ("hand", "handa"):
+            # the message is moved out; the writer's buffer is empty afterwards and the writer restarts at 0
+            msgs.append(buf); buf = b""; o = "msg=%d:%d|0" % (len(msgs) - 1, len(msgs[-1]))
+        elif f[0] == "reset":
+            buf = b""; o = "ok|0"
+        elif f[0] == "self":
+            o = "ok|%d" % len(buf)
+        elif f[0] == "chkm":
+            j = int(f[1])
+            o = "bad" if j >= len(msgs) else "msg:" + hx(msgs[j])
+        elif f[0] == "w":
             buf += unhx(f[1]); o = "ok|%d" % len(buf)
         elif f[0] == "wn":
             buf += b"\0" * int(f[1]); o = "ok|%d" % len(buf)
@@ -205,10 +215,10 @@ def oracle_H(toks):
                 outs.append("bad"); continue
             cur = curs[k]
             if f[0] == "end":
-                o = "end=%d" % (1 if cur == len(buf) else 0)
+                o = "end=%d" % (1 if cur >= len(buf) else 0)
             else:
                 size = int(f[2])
-                if size > len(buf) - cur:
+                if cur > len(buf) or size > len(buf) - cur:     # incl. a stale reader over a handed-off / reset buffer
                     o = "throw"
                 elif f[0] == "rd":
                     o = "ok:" + (hx(buf[cur:cur + size]) if f[3] == "1" else "-"); curs[k] += size
@@ -422,13 +432,25 @@ def gen_H_exhaustive(maxlen):
         for t in itertools.product(alpha, repeat=n):
             if "new" in t and t.index("new") < n - 1 and any(x[0] == "w" for x in t):
                 yield "H " + " ".join(t)
+    # handoff histories: write, move the buffer out (both forms), keep writing, reset, self-assign, read the messages
+    alpha2 = ["w:41", "w:4243", "hand", "handa", "reset", "self", "chkm:0", "new", "rd:0:1:1", "end:0"]
+    for n in range(2, maxlen + 1):
+        for t in itertools.product(alpha2, repeat=n):
+            if any(x in ("hand", "handa", "reset", "self") for x in t) and any(x[0] == "w" for x in t):
+                yield "H " + " ".join(t)
 
 
 def gen_H_random(r):
     """longer histories; writes after reader construction include ones that make the OwnedArray reallocate"""
-    ops, size, curs = [], 0, []
+    ops, size, curs, nmsg = [], 0, [], 0
     for _ in range(r.randint(3, 16)):
         c = r.random()
+        if r.random() < 0.12:
+            k = r.choice(["hand", "handa", "hand", "reset", "self"] + (["chkm:%d" % r.randrange(nmsg)] * 2 if nmsg else []))
+            ops.append(k)
+            if k in ("hand", "handa"): nmsg += 1; size = 0
+            elif k == "reset": size = 0
+            continue
         if c < 0.30 or not curs and c < 0.5:
             n = r.choice([1, 2, 3, 8, 9, 17, 33, 64, 100, 300, 700]) if r.random() < 0.5 else r.randint(0, 12)
             if size + n > 4000: continue
@@ -441,14 +463,14 @@ def gen_H_random(r):
                 ops.append("new"); curs.append(0)
         elif curs:
             k = r.randrange(len(curs))
-            rem = size - curs[k]
+            rem = max(size - curs[k], 0)
             d = r.random()
             if d < 0.2: ops.append("end:%d" % k)
             else:
                 s = r.choice([0, 1, rem, max(rem - 1, 0), rem + 1, r.randint(0, max(rem, 1)), min(rem, 8)])
                 if d < 0.75: ops.append("rd:%d:%d:1" % (k, s))
                 else: ops.append("vw:%d:%d" % (k, s))
-                if s <= rem: curs[k] += s
+                if curs[k] <= size and s <= size - curs[k]: curs[k] += s
     return "H " + " ".join(ops)
 
 
@@ -651,7 +673,7 @@ def differing(kind, a, b):
     """name of what differs between two observation lines (for grouping the reports)"""
     if kind == "T":
         fa, fb = split_T(a), split_T(b)
-        ks = [k for k in ("raw", "enc", "calc", "dec", "end", "cur", "trunc", "fix", "re", "st", "cp") if fa.get(k) != fb.get(k)]
+        ks = [k for k in ("raw", "enc", "calc", "dec", "end", "cur", "trunc", "fix", "re", "st", "cp", "mv") if fa.get(k) != fb.get(k)]
         return "+".join(ks) or "?"
     if kind in ("R", "F", "L", "H"):
         sa, sb = a.split(" ; "), b.split(" ; ")
@@ -797,8 +819,9 @@ def run(ctx):
             ops = [x.split(":")[0] for x in t[1:]]
             for op in ops:
                 hist["ops"]["H:" + op] = hist["ops"].get("H:" + op, 0) + 1
-            # non-trivial: a write after a reader was constructed, followed by a successful read
-            if "new" in ops and any(o == "w" for o in ops[ops.index("new"):]) and "ok:" in ml.split("reader=")[-1]:
+            # non-trivial: a write after a reader was constructed followed by a successful read, or a write after a handoff
+            if ("new" in ops and any(o == "w" for o in ops[ops.index("new"):]) and "ok:" in ml.split("reader=")[-1]) or \
+                    any(h in ops and "w" in ops[ops.index(h):] for h in ("hand", "handa", "reset")):
                 ctx.nontriv(c)
         elif k == "L":
             ops = [x.split(":")[0] for x in t[2:]]
